@@ -37,7 +37,8 @@ func (f *Flat) consumes(fi *FuncInfo, n *GNode, E types.Object, o flowOpts) (boo
 		return false, ""
 	}
 	sig := fi.Sig()
-	viaAdapter := func(e ast.Expr) bool {
+	var viaAdapterFor func(e ast.Expr, E types.Object) bool
+	viaAdapterFor = func(e ast.Expr, E types.Object) bool {
 		found := false
 		ast.Inspect(e, func(x ast.Node) bool {
 			if c, ok := x.(*ast.CallExpr); ok && len(o.Through) > 0 && f.P.callIs(f.Pkg, c, o.Through...) {
@@ -51,12 +52,28 @@ func (f *Flat) consumes(fi *FuncInfo, n *GNode, E types.Object, o flowOpts) (boo
 		})
 		return found
 	}
-	checkExpr := func(e ast.Expr) (bool, string) {
+	var checkFor func(e ast.Expr, E types.Object, depth int) (bool, string)
+	checkFor = func(e ast.Expr, E types.Object, depth int) (bool, string) {
+		// a local closure or a one-line helper of the package that shapes the error: judged by what it returns
+		//   fail := func(step string, err error) error { return fmt.Errorf("%s: %w", step, ClientError(err)) }
+		if c, isCall := ast.Unparen(e).(*ast.CallExpr); isCall && depth < 3 {
+			if params, ret := f.P.errShaper(fi, c); ret != nil {
+				for i, a := range c.Args {
+					if i >= len(params) || params[i] == nil || !isErrorType(params[i].Type()) || !usesObj(info, a, E) {
+						continue
+					}
+					if k, _, w := keepsClass(info, a, E); !k && o.Class {
+						return false, "argument of the error helper: " + w
+					}
+					return checkFor(ret, params[i], depth+1)
+				}
+			}
+		}
 		k, m, why := keepsClass(info, e, E)
 		if !m {
 			return false, ""
 		}
-		if o.Require && !o.sanitised && !viaAdapter(e) {
+		if o.Require && !o.sanitised && !viaAdapterFor(e, E) {
 			return false, "the error reaches the caller without passing " + strings.Join(o.Through, "/")
 		}
 		if k {
@@ -95,6 +112,9 @@ func (f *Flat) consumes(fi *FuncInfo, n *GNode, E types.Object, o flowOpts) (boo
 		}
 		return false, why
 	}
+	checkExpr := func(e ast.Expr) (bool, string) { return checkFor(e, E, 0) }
+	viaAdapter := func(e ast.Expr) bool { return viaAdapterFor(e, E) }
+	_ = viaAdapter
 	switch s := n.Ast.(type) {
 	case *ast.ReturnStmt:
 		if len(s.Results) == 0 {
@@ -370,4 +390,47 @@ func (f *Flat) SiteConsumed(r *Report, rule, cons string, fi *FuncInfo, s callSi
 	}
 	r.Viol(rule, cons, p.pos(s.Call), res.Detail, res.Pos)
 	return false
+}
+
+// errShaper: c calls a local closure (defined once by a literal in fi) or a function of fi's package whose body is
+// a single return statement; it returns the parameters and the returned expression of error type.
+func (p *Prog) errShaper(fi *FuncInfo, c *ast.CallExpr) ([]types.Object, ast.Expr) {
+	info := fi.Pkg.TypesInfo
+	var ftype *ast.FuncType
+	var body *ast.BlockStmt
+	if id, ok := ast.Unparen(c.Fun).(*ast.Ident); ok {
+		if v, isVar := info.Uses[id].(*types.Var); isVar && fi.body() != nil {
+			if def := singleDef(info, fi.body(), v); def != nil {
+				if lit, isLit := ast.Unparen(def).(*ast.FuncLit); isLit {
+					ftype, body = lit.Type, lit.Body
+				}
+			}
+		}
+	}
+	if body == nil {
+		if callee := p.staticCallee(fi.Pkg, c); callee != nil && callee.Pkg == fi.Pkg && callee.Decl.Recv == nil && !callee.Obj.Exported() {
+			ftype, body = callee.Decl.Type, callee.Decl.Body
+		}
+	}
+	if body == nil || len(body.List) != 1 {
+		return nil, nil
+	}
+	rs, ok := body.List[0].(*ast.ReturnStmt)
+	if !ok || len(rs.Results) == 0 {
+		return nil, nil
+	}
+	var params []types.Object
+	for _, fld := range ftype.Params.List {
+		for _, nm := range fld.Names {
+			params = append(params, info.Defs[nm])
+		}
+		if len(fld.Names) == 0 {
+			params = append(params, nil)
+		}
+	}
+	last := rs.Results[len(rs.Results)-1]
+	if tv, ok := info.Types[last]; !ok || !isErrorType(tv.Type) {
+		return nil, nil
+	}
+	return params, last
 }
